@@ -6,11 +6,11 @@ TLog == ndJsonDeserialize(IOEnv.TRACE)
 NL   == Len(TLog)
 GS == {TLog[i].g : i \in {j \in 1..NL : "g" \in DOMAIN TLog[j]}}
 
-VARIABLES l, pend
-tvars == <<vars, l, pend>>
+VARIABLES l, pend, cdone   \* cdone: contexts whose cancellation has completed
+tvars == <<vars, l, pend, cdone>>
 Idle == [st |-> "idle", line |-> 0, pre |-> FALSE]
 
-TVInit == Init /\ l = 1 /\ pend = [g \in GS |-> Idle] /\ TLCSet(1, 0)
+TVInit == Init /\ l = 1 /\ pend = [g \in GS |-> Idle] /\ cdone = {} /\ TLCSet(1, 0)
 
 Cur == TLog[l]
 IsEv(e) == l <= NL /\ Cur.ev = e
@@ -24,20 +24,21 @@ SetPend(g, st) == pend' = [pend EXCEPT ![g].st = st]
 TReset ==
   /\ IsEv("reset") /\ Consume
   /\ reg' = {} /\ inflight' = <<>> /\ queue' = [t \in Targets |-> <<>>] /\ ctxc' = {} /\ hist' = {}
-  /\ pend' = [g \in GS |-> Idle]
+  /\ pend' = [g \in GS |-> Idle] /\ cdone' = {}
 
 TCall ==
   /\ IsEv("call") /\ Consume /\ pend[Cur.g].st = "idle"
-  /\ pend' = [pend EXCEPT ![Cur.g] = [st |-> "called", line |-> l, pre |-> ("ctx" \in DOMAIN Cur /\ Cur.ctx \in ctxc)]]
-  /\ UNCHANGED vars
+  /\ pend' = [pend EXCEPT ![Cur.g] = [st |-> "called", line |-> l, pre |-> ("ctx" \in DOMAIN Cur /\ Cur.ctx \in cdone)]]
+  /\ UNCHANGED <<vars, cdone>>
 
 TRet ==
   /\ IsEv("ret") /\ Consume
   /\ pend[Cur.g].st = "done" /\ CallOf(Cur.g).ret = l
   /\ pend' = [pend EXCEPT ![Cur.g] = Idle]
-  /\ UNCHANGED vars
+  /\ UNCHANGED <<vars, cdone>>
 
-TCancel == IsEv("cancel") /\ Consume /\ Cancel(Cur.ctx) /\ UNCHANGED pend
+TCancel == IsEv("cancel") /\ Consume /\ Cancel(Cur.ctx) /\ UNCHANGED <<pend, cdone>>
+TCancelled == IsEv("cancelled") /\ Consume /\ cdone' = cdone \cup {Cur.ctx} /\ UNCHANGED <<vars, pend>>
 
 \* receivers currently waiting on target t (a Recv call that has not obtained its value yet)
 \* (t = 0 in a Recv call: the receiver takes from whichever target has something)
@@ -64,15 +65,15 @@ TQuiescent ==
   /\ IsEv("quiescent") /\ Consume
   /\ {g \in GS : pend[g].st # "idle"} = {Cur.pending[i] : i \in 1..Len(Cur.pending)}
   /\ Cur.exact => \A g \in GS : pend[g].st # "idle" => ~CanProgress(g)
-  /\ UNCHANGED <<vars, pend>>
+  /\ UNCHANGED <<vars, pend, cdone>>
 
 TFinal ==
   /\ IsEv("final") /\ Consume
   /\ \A t \in Targets : queue[t] = <<>>          \* everything that was sent has been received by its target, nothing else
   /\ Cur.nsubs = Cardinality(reg)                \* the registry holds exactly the subscriptions the model holds
-  /\ UNCHANGED <<vars, pend>>
+  /\ UNCHANGED <<vars, pend, cdone>>
 
-SilentOK == l <= NL /\ Cur.ev \notin {"call", "reset"}
+SilentOK == l <= NL /\ Cur.ev \notin {"call", "reset", "cancelled"}
 
 LinSub(g) ==
   /\ pend[g].st = "called" /\ CallOf(g).op = "Sub"
@@ -102,11 +103,11 @@ LinRecv(g) ==
   /\ SetPend(g, "done")
 
 TSilent ==
-  /\ SilentOK /\ l' = l
+  /\ SilentOK /\ l' = l /\ UNCHANGED cdone
   /\ \E g \in GS : pend[g].st \in {"called", "held"} /\
         (LinSub(g) \/ LinUnsub(g) \/ LinPubQuick(g) \/ LinPubBegin(g) \/ LinPubStep(g) \/ LinPubEnd(g) \/ LinRecv(g))
 
-TVNext == TSilent \/ TReset \/ TCall \/ TRet \/ TCancel \/ TQuiescent \/ TFinal
+TVNext == TSilent \/ TReset \/ TCall \/ TRet \/ TCancel \/ TCancelled \/ TQuiescent \/ TFinal
 TVSpec == TVInit /\ [][TVNext]_tvars
 
 Mark ==
